@@ -28,7 +28,6 @@ use common::*;
 use serde_json::{json, Value};
 use std::alloc::{GlobalAlloc, Layout};
 use std::collections::{BTreeMap, BTreeSet, HashMap};
-use std::io::Write as _;
 use std::path::{Path, PathBuf};
 use std::sync::atomic::{AtomicU64, AtomicUsize, Ordering};
 use std::time::{Duration, Instant};
@@ -99,6 +98,9 @@ static ALLOC: Guard = Guard;
 
 const GIB: usize = 1 << 30;
 const SLACK: usize = 64 * 1024;
+/// serde pre-allocates at most 1 MiB for a sequence whose claimed length it cannot trust yet
+/// (`size_hint::cautious`): a constant, deliberate ceiling of every serde/bitcode decoder
+const SERDE_CAP: usize = 1 << 20;
 
 /// Runs the code under test; returns its result (or the panic message) and the largest single
 /// allocation the calling thread requested meanwhile (refused requests included).
@@ -394,7 +396,7 @@ fn g_log_entry(rng: &mut Rng, st: &mut OptStats) -> LogEntry {
         term: g_u64(rng),
         index: g_u64(rng),
         block: g_block(rng, st),
-        config_change: st.opt(rng, "LogEntry.config_change", |r| ()).map(|_| g_config_change(rng, &mut OptStats::default())),
+        config_change: st.opt(rng, "LogEntry.config_change", |_| ()).map(|_| g_config_change(rng, &mut OptStats::default())),
         codebook_change: st.opt(rng, "LogEntry.codebook_change", |_| ()).map(|_| g_codebook_change(rng, &mut OptStats::default())),
     }
 }
@@ -667,7 +669,11 @@ fn g_raft_entry(rng: &mut Rng, variant: usize, st: &mut OptStats) -> RaftWalEntr
         3 => RaftWalEntry::LogAppend { index: g_u64(rng), term: g_u64(rng), command_hash: g_hash(rng) },
         4 => RaftWalEntry::LogTruncate { from_index: g_u64(rng) },
         5 => RaftWalEntry::SnapshotTaken { last_included_index: g_u64(rng), last_included_term: g_u64(rng) },
-        _ => RaftWalEntry::LogEntryFull { index: g_u64(rng), term: g_u64(rng), entry_data: g_bytes(rng, if rng.chance(1, 8) { 100_000 } else { 500 }) },
+        _ => RaftWalEntry::LogEntryFull { index: g_u64(rng), term: g_u64(rng), entry_data: {
+                let cap = if rng.chance(1, 8) { 100_000 } else { 500 };
+                g_bytes(rng, cap)
+            },
+        },
     }
 }
 fn g_txwal_entry(rng: &mut Rng, variant: usize) -> TxWalEntry {
@@ -691,7 +697,8 @@ fn is_sorted(v: &[u64]) -> bool {
 }
 
 fn gen_ids(rng: &mut Rng) -> (Vec<u64>, &'static str) {
-    let n = 2 + rng.below(if rng.chance(1, 10) { 3000 } else { 30 });
+    let cap = if rng.chance(1, 10) { 3000 } else { 30 };
+    let n = 2 + rng.below(cap);
     match rng.below(11) {
         0 => (vec![], "empty"),
         1 => (vec![g_u64(rng)], "single"),
@@ -823,7 +830,8 @@ fn part_rle(case_seed: u64, r: &mut Report) {
             (rle_check(&d, "u8", case_seed, r), d.len(), hash_bytes(&d))
         }
         _ => {
-            let d = gen_runs(&mut rng, |r| g_string(r, 12));
+            let mut d = gen_runs(&mut rng, |r| g_string(r, 12));
+            d.truncate(30_000);
             (rle_check(&d, "String", case_seed, r), d.len(), hash_str(&d.join("\u{1}")))
         }
     };
@@ -1026,14 +1034,18 @@ fn part_vecfield(case_seed: u64, r: &mut Report) {
                     CompressedValue::VectorRaw(_) => "VectorRaw",
                     _ => "other",
                 };
-                let sig = match class {
-                    0 | 1 => {
-                        let ids: Vec<u64> = vec.iter().map(|&f| f as u64).collect();
-                        if is_sorted(&ids) { "vecfield-roundtrip:sorted-id-field-altered" } else { "vecfield-roundtrip:unsorted-id-field-altered" }
-                    }
-                    5 => "vecfield-roundtrip:id-heuristic-saturates-integers-above-u64",
-                    6 => "vecfield-roundtrip:ids-named-field-truncates-non-integers",
-                    _ => "vecfield-roundtrip:vector-field-altered",
+                // classified by what the evidence shows, not by the generator class
+                let ids: Vec<u64> = vec.iter().map(|&f| f as u64).collect();
+                let sig = if how != "IdList" {
+                    "vecfield-roundtrip:vector-field-altered"
+                } else if vec.iter().any(|f| !(*f >= 0.0) || f.fract() != 0.0) {
+                    "vecfield-roundtrip:ids-named-field-truncates-non-integers"
+                } else if vec.iter().any(|f| *f >= 18446744073709551616.0) {
+                    "vecfield-roundtrip:id-heuristic-saturates-integers-above-u64"
+                } else if is_sorted(&ids) {
+                    "vecfield-roundtrip:sorted-id-field-altered"
+                } else {
+                    "vecfield-roundtrip:unsorted-id-field-altered"
                 };
                 r.violation(
                     sig,
@@ -1596,11 +1608,11 @@ fn part_tt(case_seed: u64, r: &mut Report) {
     }
     let true_rank = 1 + rng.below((cfg.max_rank / 2).max(1).min(4));
     let (scale, scale_class) = match rng.below(8) {
-        0 => (1e-3, "moderate"),
-        1 => (1e3, "moderate"),
-        2 => (1e-12, "extreme"),
-        3 => (1e12, "extreme"),
-        _ => (1.0, "unit"),
+        0 => (1e-3, "norm-1e-3"),
+        1 => (1e3, "norm-1e3"),
+        2 => (1e-12, "norm-1e-12"),
+        3 => (1e12, "norm-1e12"),
+        _ => (1.0, "unit-norm"),
     };
     let mut v64 = if class <= 2 {
         // smooth signals have low TT-rank (sum of two sinusoids: rank <= 4)
@@ -1625,7 +1637,7 @@ fn part_tt(case_seed: u64, r: &mut Report) {
             return;
         }
         Ok(Err(e)) => {
-            r.violation("tt:valid-input-rejected", format!("tt_decompose failed on a finite {}-dim vector ({}, scale {}): {}", dim, preset, scale, e), replay);
+            r.violation(if scale < 1.0 { "tt:valid-input-rejected:small-norm" } else { "tt:valid-input-rejected" }, format!("tt_decompose failed on a finite {}-dim vector ({}, scale {}): {}", dim, preset, scale, e), replay);
             return;
         }
         Ok(Ok(x)) => x,
@@ -1647,7 +1659,9 @@ fn part_tt(case_seed: u64, r: &mut Report) {
     r.count_max("max:tt_rel_error_ppm", (rel * 1e6) as u64);
     if !(rel <= bound) {
         r.violation(
-            format!("tt:error-above-documented-bound:{}:{}-scale", preset, scale_class),
+            // marginal = within 5x of the documented figure (the SVD's fixed 20 power iterations);
+            // small-norm = the scale-dependent failure (absolute thresholds in decompose.rs); gross = anything else
+            format!("tt:error-above-documented-bound:{}:{}", preset, if rel <= 5.0 * bound { "marginal" } else if scale < 1.0 { "small-norm" } else { "gross" }),
             format!("dim {} shape {:?} preset {} (max_rank {}, tol {}), input of TT-rank <= {} and norm {:e}: returned ranks {:?} (below the cap) but relative L2 error {:.4} > {}", dim, cfg.shape, preset, cfg.max_rank, cfg.tolerance, true_rank.max(if class <= 2 { 4 } else { 0 }), scale, ranks, rel, bound),
             replay,
         );
@@ -1720,7 +1734,8 @@ fn hostile_inputs(rng: &mut Rng, enc: &[u8], r: &mut Report) -> Vec<(String, Vec
         v[at..at + len].copy_from_slice(&junk);
         out.push((format!("overwrite@{}+{}", at, len), v));
         let mut v = enc.to_vec();
-        v.extend_from_slice(&rng.bytes(1 + rng.below(16)));
+        let k = 1 + rng.below(16);
+        v.extend_from_slice(&rng.bytes(k));
         out.push(("trailing-junk".into(), v));
     }
     out
@@ -1841,9 +1856,9 @@ fn g_rle_case(cx: &mut GCtx) {
         let bytes = bitcode::serialize(e).expect("serialize RleEncoded");
         let inputs = if k == 0 { hostile_inputs(&mut rng, &bytes, cx.r) } else { vec![(format!("inconsistent-lengths(values={},runs={})", e.values.len(), e.run_lengths.len()), bytes)] };
         for (how, inp) in inputs {
-            let limit = 256 * inp.len() + SLACK;
+            let limit = 256 * inp.len() + SERDE_CAP + SLACK;
             let res = measured(|| bitcode::deserialize::<RleEncoded<i64>>(&inp));
-            match cx.judge("bitcode<RleEncoded>", &how, &inp, limit, "256*input+64KiB", res) {
+            match cx.judge("bitcode<RleEncoded>", &how, &inp, limit, "256*input+1MiB+64KiB", res) {
                 None => return,
                 Some(Ok(enc)) => {
                     cx.r.count("g-rle:decoded-ok", 1);
@@ -1897,9 +1912,9 @@ fn g_sparse_case(cx: &mut GCtx) {
     let bytes = if bytes.len() > 600 { bitcode::serialize(&SparseVector::from_parts(100, vec![1, 5, 99], vec![1.0, -2.0, 3.5])).unwrap() } else { bytes };
     let mut h = 0u64;
     for (how, inp) in hostile_inputs(&mut rng, &bytes, cx.r) {
-        let limit = 256 * inp.len() + SLACK;
+        let limit = 256 * inp.len() + SERDE_CAP + SLACK;
         let res = measured(|| bitcode::deserialize::<SparseVector>(&inp));
-        match cx.judge("bitcode<SparseVector>", &how, &inp, limit, "256*input+64KiB", res) {
+        match cx.judge("bitcode<SparseVector>", &how, &inp, limit, "256*input+1MiB+64KiB", res) {
             None => return,
             Some(Err(_)) => cx.r.count("g-sparse:rejected", 1),
             Some(Ok(s)) => {
@@ -1969,9 +1984,9 @@ fn g_snapfmt_case(cx: &mut GCtx) {
     let bytes = snap.serialize().expect("serialize snapshot");
     let mut h = 0u64;
     for (how, inp) in hostile_inputs(&mut rng, &bytes, cx.r) {
-        let limit = 256 * inp.len() + SLACK;
+        let limit = 256 * inp.len() + SERDE_CAP + SLACK;
         let res = measured(|| CompressedSnapshot::deserialize(&inp));
-        let s = match cx.judge("CompressedSnapshot::deserialize", &how, &inp, limit, "256*input+64KiB", res) {
+        let s = match cx.judge("CompressedSnapshot::deserialize", &how, &inp, limit, "256*input+1MiB+64KiB", res) {
             None => return,
             Some(Err(_)) => {
                 cx.r.count("g-snapfmt:rejected", 1);
@@ -2042,7 +2057,7 @@ fn g_frame_case(cx: &mut GCtx) {
     };
     let validator = CompositeValidator::new(MessageValidationConfig::default());
     let declared = if spec.v2 { spec.max.max(tcpc::MAX_DECOMPRESSED_SIZE) } else { spec.max };
-    let lname = if spec.v2 { "max(max_frame_length, MAX_DECOMPRESSED_SIZE)+256*input+64KiB" } else { "max_frame_length+256*input+64KiB" };
+    let lname = if spec.v2 { "max(max_frame_length, MAX_DECOMPRESSED_SIZE)+256*input+1MiB+64KiB" } else { "max_frame_length+256*input+1MiB+64KiB" };
     let mut h = 0u64;
     let after = |cx: &mut GCtx, m: &Message, how: &str, inp: &[u8]| -> bool {
         // a decoded message must be usable: printable, re-encodable, validatable
@@ -2068,12 +2083,13 @@ fn g_frame_case(cx: &mut GCtx) {
         for claimed in [0u32, 1, 100, tcpc::MAX_DECOMPRESSED_SIZE as u32 - 1, tcpc::MAX_DECOMPRESSED_SIZE as u32, tcpc::MAX_DECOMPRESSED_SIZE as u32 + 1, u32::MAX, 0xF0FF_FFFF] {
             let mut v = vec![1u8];
             v.extend_from_slice(&claimed.to_le_bytes());
-            v.extend_from_slice(&rng.bytes(rng.below(40)));
+            let k = rng.below(40);
+            v.extend_from_slice(&rng.bytes(k));
             payloads.push((format!("lz4-flag+claimed-size-{}", claimed), v));
         }
     }
     for (how, inp) in payloads {
-        let limit = declared + 256 * inp.len() + SLACK;
+        let limit = declared + 256 * inp.len() + SERDE_CAP + SLACK;
         let res = measured(|| if spec.v2 { codec.decode_payload_v2(&inp) } else { codec.decode_payload(&inp) });
         match cx.judge(if spec.v2 { "decode_payload_v2" } else { "decode_payload" }, &how, &inp, limit, lname, res) {
             None => return,
@@ -2100,7 +2116,7 @@ fn g_frame_case(cx: &mut GCtx) {
         streams.push((format!("stream-truncated@{}", t.min(frame.len())), frame[..t.min(frame.len())].to_vec()));
     }
     for (how, inp) in streams {
-        let limit = declared + 256 * inp.len() + SLACK;
+        let limit = declared + 256 * inp.len() + SERDE_CAP + SLACK;
         let res = measured(|| {
             rtm.block_on(async {
                 let mut rd: &[u8] = &inp;
@@ -2130,14 +2146,14 @@ fn g_frame_case(cx: &mut GCtx) {
             inputs.push((format!("handshake-length-prefix-{}", p), v));
         }
         for (how, inp) in inputs {
-            let limit = hmax + 256 * inp.len() + SLACK;
+            let limit = hmax + 256 * inp.len() + SERDE_CAP + SLACK;
             let res = measured(|| {
                 rtm.block_on(async {
                     let mut rd: &[u8] = &inp;
                     Handshake::read_from(&mut rd, hmax).await.map(|h| h.node_id.len())
                 })
             });
-            if cx.judge("Handshake::read_from", &how, &inp, limit, "max_size+256*input+64KiB", res).is_none() {
+            if cx.judge("Handshake::read_from", &how, &inp, limit, "max_size+256*input+1MiB+64KiB", res).is_none() {
                 return;
             }
         }
@@ -2197,7 +2213,8 @@ fn hostile_logs(rng: &mut Rng, valid: &[u8], r: &mut Report) -> Vec<(String, Vec
         // after a valid log: a garbage header as the last record
         let mut f = valid.to_vec();
         f.extend_from_slice(&p.to_le_bytes());
-        f.extend_from_slice(&rng.bytes(rng.below(12)));
+        let k = rng.below(12);
+        f.extend_from_slice(&rng.bytes(k));
         v.push((format!("trailing-length-prefix-{}", p), f));
     }
     v
@@ -2223,7 +2240,8 @@ fn g_wal_case(cx: &mut GCtx, dir: &Path) {
                 let mut w = TensorWal::open(&path, c).map_err(|e| e.to_string())?;
                 for i in 0..n {
                     let e = loop {
-                        let e = g_wal_entry(&mut rng, rng.below(10) + i);
+                        let k = rng.below(10) + i;
+                        let e = g_wal_entry(&mut rng, k);
                         if bitcode::serialize(&e).map(|b| b.len() < 400).unwrap_or(false) {
                             break e;
                         }
@@ -2239,7 +2257,8 @@ fn g_wal_case(cx: &mut GCtx, dir: &Path) {
                 let mut w = RaftWal::open_with_config(&path, c).map_err(|e| e.to_string())?;
                 for i in 0..n {
                     let e = loop {
-                        let e = g_raft_entry(&mut rng, rng.below(7) + i, &mut OptStats::default());
+                        let k = rng.below(7) + i;
+                        let e = g_raft_entry(&mut rng, k, &mut OptStats::default());
                         if bitcode::serialize(&e).map(|b| b.len() < 400).unwrap_or(false) {
                             break e;
                         }
@@ -2254,7 +2273,8 @@ fn g_wal_case(cx: &mut GCtx, dir: &Path) {
                 c.pre_check_space = false;
                 let mut w = TxWal::open_with_config(&path, c).map_err(|e| e.to_string())?;
                 for i in 0..n {
-                    let e = g_txwal_entry(&mut rng, rng.below(7) + i);
+                    let k = rng.below(7) + i;
+                    let e = g_txwal_entry(&mut rng, k);
                     w.append(&e).map_err(|e| e.to_string())?;
                     want.push(format!("{:?}", e));
                 }
@@ -2274,7 +2294,7 @@ fn g_wal_case(cx: &mut GCtx, dir: &Path) {
             cx.r.inconclusive("scratch write failed");
             break;
         }
-        let limit = 64 * inp.len() + SLACK;
+        let limit = 64 * inp.len() + SERDE_CAP + SLACK;
         let res: (Result<Result<Vec<String>, String>, String>, usize) = match part.as_str() {
             "g-walstore" => measured(|| {
                 let mut c = WalConfig::default();
@@ -2297,7 +2317,7 @@ fn g_wal_case(cx: &mut GCtx, dir: &Path) {
                 w.replay().map(|v| v.iter().map(|e| format!("{:?}", e)).collect()).map_err(|e| e.to_string())
             }),
         };
-        match cx.judge("open+replay", &how, &inp, limit, "64*file_length+64KiB", res) {
+        match cx.judge("open+replay", &how, &inp, limit, "64*file_length+1MiB+64KiB", res) {
             None => {
                 cleanup(&path);
                 return;
@@ -2371,7 +2391,8 @@ fn g_snapfile_case(cx: &mut GCtx, dir: &Path) {
         inputs.push((format!("bitflip@{}", bit), v));
     }
     inputs.push((format!("truncate@{}", valid.len() / 2), valid[..valid.len() / 2].to_vec()));
-    inputs.push(("random".into(), rng.bytes(rng.below(64))));
+    let k = rng.below(64);
+    inputs.push(("random".into(), rng.bytes(k)));
     let mut h = 0u64;
     for (how, inp) in inputs {
         if std::fs::write(&path, &inp).is_err() {
@@ -2412,26 +2433,26 @@ struct PartSpec {
 }
 
 const PARTS: &[PartSpec] = &[
-    PartSpec { name: "ids", evals_counter: "evals:ids", quick: 20_000, thorough: 600_000, budget_q: 8, budget_t: 90, floor: 2_000, garbage: false, chunk: 0 },
-    PartSpec { name: "rle", evals_counter: "evals:rle", quick: 500, thorough: 15_000, budget_q: 8, budget_t: 90, floor: 100, garbage: false, chunk: 0 },
-    PartSpec { name: "sparse", evals_counter: "evals:sparse", quick: 4_000, thorough: 150_000, budget_q: 8, budget_t: 90, floor: 500, garbage: false, chunk: 0 },
-    PartSpec { name: "vecfield", evals_counter: "evals:vecfield", quick: 4_000, thorough: 150_000, budget_q: 8, budget_t: 90, floor: 500, garbage: false, chunk: 0 },
-    PartSpec { name: "walstore", evals_counter: "evals:walstore", quick: 1_200, thorough: 50_000, budget_q: 10, budget_t: 120, floor: 150, garbage: false, chunk: 0 },
-    PartSpec { name: "walraft", evals_counter: "evals:walraft", quick: 1_200, thorough: 50_000, budget_q: 10, budget_t: 120, floor: 150, garbage: false, chunk: 0 },
-    PartSpec { name: "waltx", evals_counter: "evals:waltx", quick: 1_200, thorough: 50_000, budget_q: 10, budget_t: 120, floor: 150, garbage: false, chunk: 0 },
-    PartSpec { name: "frame", evals_counter: "evals:frame", quick: 6_600, thorough: 330_000, budget_q: 15, budget_t: 180, floor: 1_000, garbage: false, chunk: 0 },
-    PartSpec { name: "tcpcomp", evals_counter: "evals:tcpcomp", quick: 800, thorough: 8_000, budget_q: 10, budget_t: 120, floor: 100, garbage: false, chunk: 0 },
-    PartSpec { name: "tt", evals_counter: "evals:tt", quick: 500, thorough: 15_000, budget_q: 15, budget_t: 180, floor: 60, garbage: false, chunk: 0 },
-    PartSpec { name: "g-ids", evals_counter: "evals:g-ids", quick: 500, thorough: 20_000, budget_q: 25, budget_t: 400, floor: 60, garbage: true, chunk: 250 },
-    PartSpec { name: "g-rle", evals_counter: "evals:g-rle", quick: 300, thorough: 10_000, budget_q: 25, budget_t: 400, floor: 40, garbage: true, chunk: 100 },
-    PartSpec { name: "g-sparse", evals_counter: "evals:g-sparse", quick: 500, thorough: 20_000, budget_q: 25, budget_t: 400, floor: 60, garbage: true, chunk: 250 },
-    PartSpec { name: "g-snapfmt", evals_counter: "evals:g-snapfmt", quick: 400, thorough: 15_000, budget_q: 25, budget_t: 400, floor: 40, garbage: true, chunk: 100 },
-    PartSpec { name: "g-frame", evals_counter: "evals:g-frame", quick: 300, thorough: 12_000, budget_q: 25, budget_t: 400, floor: 40, garbage: true, chunk: 100 },
-    PartSpec { name: "g-comp", evals_counter: "evals:g-comp", quick: 300, thorough: 10_000, budget_q: 25, budget_t: 400, floor: 40, garbage: true, chunk: 100 },
-    PartSpec { name: "g-walstore", evals_counter: "evals:g-walstore", quick: 120, thorough: 5_000, budget_q: 25, budget_t: 400, floor: 20, garbage: true, chunk: 40 },
-    PartSpec { name: "g-walraft", evals_counter: "evals:g-walraft", quick: 120, thorough: 5_000, budget_q: 25, budget_t: 400, floor: 20, garbage: true, chunk: 40 },
-    PartSpec { name: "g-waltx", evals_counter: "evals:g-waltx", quick: 120, thorough: 5_000, budget_q: 25, budget_t: 400, floor: 20, garbage: true, chunk: 40 },
-    PartSpec { name: "g-snapfile", evals_counter: "evals:g-snapfile", quick: 32, thorough: 800, budget_q: 25, budget_t: 400, floor: 6, garbage: true, chunk: 8 },
+    PartSpec { name: "ids", evals_counter: "evals:ids", quick: 40000, thorough: 1500000, budget_q: 8, budget_t: 90, floor: 2_000, garbage: false, chunk: 0 },
+    PartSpec { name: "rle", evals_counter: "evals:rle", quick: 500, thorough: 15000, budget_q: 8, budget_t: 90, floor: 100, garbage: false, chunk: 0 },
+    PartSpec { name: "sparse", evals_counter: "evals:sparse", quick: 10000, thorough: 300000, budget_q: 8, budget_t: 90, floor: 500, garbage: false, chunk: 0 },
+    PartSpec { name: "vecfield", evals_counter: "evals:vecfield", quick: 10000, thorough: 300000, budget_q: 8, budget_t: 90, floor: 500, garbage: false, chunk: 0 },
+    PartSpec { name: "walstore", evals_counter: "evals:walstore", quick: 3000, thorough: 100000, budget_q: 10, budget_t: 120, floor: 150, garbage: false, chunk: 0 },
+    PartSpec { name: "walraft", evals_counter: "evals:walraft", quick: 3000, thorough: 100000, budget_q: 10, budget_t: 120, floor: 150, garbage: false, chunk: 0 },
+    PartSpec { name: "waltx", evals_counter: "evals:waltx", quick: 3000, thorough: 100000, budget_q: 10, budget_t: 120, floor: 150, garbage: false, chunk: 0 },
+    PartSpec { name: "frame", evals_counter: "evals:frame", quick: 13200, thorough: 660000, budget_q: 15, budget_t: 180, floor: 1_000, garbage: false, chunk: 0 },
+    PartSpec { name: "tcpcomp", evals_counter: "evals:tcpcomp", quick: 1600, thorough: 16000, budget_q: 10, budget_t: 120, floor: 100, garbage: false, chunk: 0 },
+    PartSpec { name: "tt", evals_counter: "evals:tt", quick: 1500, thorough: 40000, budget_q: 15, budget_t: 180, floor: 60, garbage: false, chunk: 0 },
+    PartSpec { name: "g-ids", evals_counter: "evals:g-ids", quick: 2500, thorough: 80000, budget_q: 25, budget_t: 400, floor: 60, garbage: true, chunk: 250 },
+    PartSpec { name: "g-rle", evals_counter: "evals:g-rle", quick: 1200, thorough: 40000, budget_q: 25, budget_t: 400, floor: 40, garbage: true, chunk: 100 },
+    PartSpec { name: "g-sparse", evals_counter: "evals:g-sparse", quick: 2500, thorough: 80000, budget_q: 25, budget_t: 400, floor: 60, garbage: true, chunk: 250 },
+    PartSpec { name: "g-snapfmt", evals_counter: "evals:g-snapfmt", quick: 2000, thorough: 60000, budget_q: 25, budget_t: 400, floor: 40, garbage: true, chunk: 100 },
+    PartSpec { name: "g-frame", evals_counter: "evals:g-frame", quick: 1500, thorough: 50000, budget_q: 25, budget_t: 400, floor: 40, garbage: true, chunk: 100 },
+    PartSpec { name: "g-comp", evals_counter: "evals:g-comp", quick: 1500, thorough: 40000, budget_q: 25, budget_t: 400, floor: 40, garbage: true, chunk: 100 },
+    PartSpec { name: "g-walstore", evals_counter: "evals:g-walstore", quick: 600, thorough: 20000, budget_q: 25, budget_t: 400, floor: 20, garbage: true, chunk: 40 },
+    PartSpec { name: "g-walraft", evals_counter: "evals:g-walraft", quick: 600, thorough: 20000, budget_q: 25, budget_t: 400, floor: 20, garbage: true, chunk: 40 },
+    PartSpec { name: "g-waltx", evals_counter: "evals:g-waltx", quick: 600, thorough: 20000, budget_q: 25, budget_t: 400, floor: 20, garbage: true, chunk: 40 },
+    PartSpec { name: "g-snapfile", evals_counter: "evals:g-snapfile", quick: 96, thorough: 2400, budget_q: 25, budget_t: 400, floor: 6, garbage: true, chunk: 8 },
 ];
 
 fn part_salt(name: &str) -> u64 {
@@ -2450,6 +2471,14 @@ fn selected(filter: &str, p: &PartSpec) -> bool {
 }
 
 fn run_roundtrip_case(part: &str, i: u64, s: u64, thorough: bool, dir: &Path, r: &mut Report) {
+    let (e0, i0) = (r.evaluations, r.inconclusive);
+    run_roundtrip_case_inner(part, i, s, thorough, dir, r);
+    if r.evaluations == e0 && r.inconclusive == i0 {
+        // the oracle was evaluated and refuted (the case functions return at the first violation)
+        r.eval(s, true);
+    }
+}
+fn run_roundtrip_case_inner(part: &str, i: u64, s: u64, thorough: bool, dir: &Path, r: &mut Report) {
     match part {
         "ids" => part_ids(s, r),
         "rle" => part_rle(s, r),
@@ -2466,6 +2495,13 @@ fn run_roundtrip_case(part: &str, i: u64, s: u64, thorough: bool, dir: &Path, r:
 }
 
 fn run_garbage_case(part: &str, s: u64, dir: &Path, r: &mut Report) {
+    let (e0, i0) = (r.evaluations, r.inconclusive);
+    run_garbage_case_inner(part, s, dir, r);
+    if r.evaluations == e0 && r.inconclusive == i0 {
+        r.eval(s, true);
+    }
+}
+fn run_garbage_case_inner(part: &str, s: u64, dir: &Path, r: &mut Report) {
     let mut cx = GCtx { part, case_seed: s, r };
     match part {
         "g-ids" => g_ids_case(&mut cx),
@@ -2809,7 +2845,7 @@ fn main() {
             "vector fields of the quantising snapshot format are compared by value (an id list passes through integers)".into(),
             "compress_ints and rle_encode are not called by any persistence path of the store (only rle_decode is), so compress_ints' f32 fallback is not judged".into(),
             "tensor-train: bound = relative L2 error 1% (for_dim) / 0.1% (high_accuracy) as documented in tensor_compress/src/lib.rs and docs/book/src/architecture/tensor-compress.md; only inputs built with TT-rank <= max_rank/2; results whose ranks reach max_rank are inconclusive".into(),
-            "allocation ceilings: max_frame_length (v1) / max(max_frame_length, MAX_DECOMPRESSED_SIZE) (v2) + 256*input + 64 KiB for frames; MAX_DECOMPRESSED_SIZE for decompress; 64*file_length + 64 KiB for log replay; 256*input + 64 KiB for bitcode decoders without a declared limit; inherently expansive decoders (run lengths, sparse->dense, tensor-train) are only called when the element count they claim is small and are judged on panics".into(),
+            "allocation ceilings: max_frame_length (v1) / max(max_frame_length, MAX_DECOMPRESSED_SIZE) (v2) + 256*input + 64 KiB for frames; MAX_DECOMPRESSED_SIZE for decompress; 64*file_length + 64 KiB for log replay; 256*input + 1 MiB (the pre-allocation cap of serde itself) + 64 KiB for bitcode decoders without a declared limit, and the same 1 MiB on top of every ceiling that includes a bitcode decode; inherently expansive decoders (run lengths, sparse->dense, tensor-train) are only called when the element count they claim is small and are judged on panics".into(),
             "with record checksums on, replay of a corrupted log must return Err or a prefix of the appended records (a CRC collision, 2^-32 per record, would be a false alarm)".into(),
             "the harness profile has overflow-checks and debug-assertions on: an arithmetic-overflow panic reported here wraps silently in a default release build".into(),
         ],
